@@ -22,14 +22,14 @@ import (
 )
 
 const (
-	fErr      = 1 << iota // conditions / actions may fail (error, non-bool, panic)
-	fRetract              // actions may Retract / Complete
-	fCancel               // the context may be cancelled at any environment call
-	fDeleted              // entries may be Deleted (removed)
-	fFlag                 // ReturnErrOnFailedRuleEvaluation may be set
-	fListen               // 0, 1 or 2 listeners (default: 1)
-	fTwoEff               // two effects per action instead of one
-	fActErr               // actions may fail (error / panic) while conditions stay plain booleans
+	fErr     = 1 << iota // conditions / actions may fail (error, non-bool, panic)
+	fRetract             // actions may Retract / Complete
+	fCancel              // the context may be cancelled at any environment call
+	fDeleted             // entries may be Deleted (removed)
+	fFlag                // ReturnErrOnFailedRuleEvaluation may be set
+	fListen              // 0, 1 or 2 listeners (default: 1)
+	fTwoEff              // two effects per action instead of one
+	fActErr              // actions may fail (error / panic) while conditions stay plain booleans
 )
 
 const (
@@ -57,16 +57,16 @@ const (
 )
 
 type vaEvent struct {
-	kind     int
-	cycle    uint64
-	rule     int
-	cand     bool
-	out      int  // evW: outcome; evT: result (0 nil, 1 error, 2 panic)
-	eff      [2]int
-	effArg   [2]int
-	lis      int  // listener index for callback events
-	flagSet  bool // cancellation flag at the *start* of this event
-	flipped  bool // the flag was flipped during this event
+	kind    int
+	cycle   uint64
+	rule    int
+	cand    bool
+	out     int // evW: outcome; evT: result (0 nil, 1 error, 2 panic)
+	eff     [2]int
+	effArg  [2]int
+	lis     int  // listener index for callback events
+	flagSet bool // cancellation flag at the *start* of this event
+	flipped bool // the flag was flipped during this event
 }
 
 type vaWorld struct {
@@ -325,15 +325,15 @@ func vaEngine(w *vaWorld) *GruleEngine {
 // ---------------------------------------------------------------- oracles
 
 type vaCycle struct {
-	num     uint64
-	bc      bool
-	w       map[int]int  // rule -> when outcome (only rules whose stub ran)
-	wCount  map[int]int
-	ev      map[int]int  // rule -> number of EV callbacks (listener 0)
-	evCand  map[int]bool
-	ex      []int
-	t       []int
-	order   []int // event kinds in order
+	num    uint64
+	bc     bool
+	w      map[int]int // rule -> when outcome (only rules whose stub ran)
+	wCount map[int]int
+	ev     map[int]int // rule -> number of EV callbacks (listener 0)
+	evCand map[int]bool
+	ex     []int
+	t      []int
+	order  []int // event kinds in order
 }
 
 // vaCheck evaluates all Tier A oracles on the recorded run. first: index of the first event of this call.
